@@ -7,8 +7,10 @@ Part (a), decided here for all inputs: the control/termination clauses of the st
 These are combinational (plus the transmitter's output-enable register path), checked over K steps from reset with
 every input free.
 
-Parts (b)/(c) (NRZI / bit-stuffing / EOP encoding of transmitted bytes and clock-data recovery of received packets) need
-the two-clock (usb 12 MHz / usb_io 48 MHz) schedule; see the TX/RX harnesses below.
+Part (b), transmit encoding (TxLineHarness): with the real 4:1 usb_io : usb clock ratio, a UTMI producer hands 1..4 symbolic
+bytes to the PHY and an independent line monitor decodes D+/D- (SYNC, NRZI, bit-stuffing, LSB-first bytes, SE0-SE0-J) and
+compares every byte; tx_ready must strobe exactly once per byte.
+Part (c), receive decoding / clock-data recovery, is outside the claim (see OUTSIDE).
 """
 from amaranth import *
 from amaranth.hdl.rec import Record
@@ -16,14 +18,19 @@ from ..harness import Harness
 from ..engine import Query
 
 PROP = "C25"
-ENCODED = ["luna/gateware/interface/gateware_phy/phy.py: GatewarePHY (op-mode decoding, pull-up/pull-down, line state)",
-           "luna/gateware/interface/gateware_phy/transmitter.py: TxPipeline (output enable path)"]
+ENCODED = ["luna/gateware/interface/gateware_phy/phy.py: GatewarePHY (op-mode decoding, pull-up/pull-down, line state, clock strobe)",
+           "luna/gateware/interface/gateware_phy/transmitter.py: TxPipeline, TxShifter, TxBitstuffer, TxNRZIEncoder",
+           "luna/gateware/interface/gateware_phy/receiver.py: RxPipeline (elaborated as part of the PHY; not asserted on)"]
 ASSUMPTIONS = [
+    "transmit harness: op_mode = 0, full-speed transceiver select, the producer offers one packet of 1..4 bytes whose first byte "
+    "is a PID (check nibble valid) and holds each byte until tx_ready; the usb clock ticks on every 4th usb_io edge with a "
+    "fixed phase (phase 0 in quick, all four phases in thorough)",
     "control clauses: the usb (12 MHz) and usb_io (48 MHz) domains tick together in this harness (the asserted relations "
     "are combinational in the op-mode / pull-up inputs, so the clock ratio is irrelevant to them)",
 ]
-BOUNDS = "BMC from reset K=12 with every PHY input free per cycle (op_mode, term_select, pull-down requests, tx_valid, tx_data, D+/D- inputs)"
-OUTSIDE = "encoding/decoding of packets on D+/D- (parts b/c)"
+BOUNDS = "control: BMC from reset K=12 (single rate) and K=24 (4:1) with every PHY input free per cycle.  transmit: BMC K=226 " \
+         "usb_io steps from reset, all values of up to 4 bytes (so every run of ones, including a stuffed bit at a byte boundary)"
+OUTSIDE = "receive decoding and clock-data recovery under +-0.25 % drift (part c); packets longer than 4 bytes; tx_valid dropped mid-packet"
 
 
 def make_io():
@@ -69,6 +76,166 @@ class CtrlHarness(Harness):
         return m
 
 
+class TxLineHarness(Harness):
+    """(b) transmit encoding: a UTMI producer (usb domain) hands N symbolic bytes to the real GatewarePHY; a line monitor
+    (usb_io domain) decodes D+/D-: bit period of four 48 MHz cycles from the first driven bit, NRZI, bit-stuffing after six
+    ones, SYNC, LSB-first bytes, SE0-SE0-J end of packet -- and compares every decoded byte with the byte handed over."""
+    domains = ("usb", "usb_io")
+
+    def __init__(self, nbytes=3, phase=0):
+        super().__init__()
+        from luna.gateware.interface.gateware_phy import GatewarePHY
+        self.clocks = {"usb_io": (1, 0), "usb": (4, phase)}
+        self.n = nbytes
+        self.io = make_io()
+        self.dut = GatewarePHY(io=self.io)
+        self.data = [self.inp(f"byte{i}", 8, const=True) for i in range(nbytes)]
+        self.count = self.inp("count", range(nbytes + 1).stop.bit_length(), const=True)   # bytes in the packet (1..n)
+        self.start = self.inp("start", 1)                                                   # producer start request (free)
+        names = ["sync", "byte_value", "stuffing", "eop", "byte_count", "se1", "oe_pair", "glitch", "ready_only_when_valid",
+                 "accepted_once", "drives_only_for_packet"]
+        self.v = {n: self.viol(n) for n in names}
+        self.c = {n: self.cover(n) for n in ["packet_done", "stuffed_bit", "three_bytes", "stuff_at_byte_end", "ff_byte"]}
+        self.a = {n: self.assume(n) for n in ["count_legal", "first_byte_is_pid"]}
+
+    def elaborate(self, platform):
+        m = Module()
+        m.submodules.dut = d = self.dut
+        io = self.io
+        n = self.n
+        m.d.comb += [d.op_mode.eq(0), d.xcvr_select.eq(1), d.term_select.eq(1), io.d_p.i.eq(1), io.d_n.i.eq(0),
+                     self.a["count_legal"].eq((self.count >= 1) & (self.count <= n)),
+                     # every USB packet starts with a PID byte (low nibble, complemented high nibble); with it the
+                     # question whether the final 1 of SYNC counts towards the first run of ones is unobservable
+                     self.a["first_byte_is_pid"].eq(self.data[0][0:4] == ~self.data[0][4:8])]
+        # ---- UTMI producer (usb domain): one packet, bytes held until accepted
+        idx = Signal(range(n + 1))
+        sending = Signal()
+        done = Signal()
+        accepted = Signal(range(n + 2))
+        cur = Signal(8)
+        with m.Switch(idx):
+            for i in range(n):
+                with m.Case(i):
+                    m.d.comb += cur.eq(self.data[i])
+        m.d.comb += [d.tx_valid.eq(sending), d.tx_data.eq(cur)]
+        with m.If(~sending & ~done & self.start):
+            m.d.usb += sending.eq(1)
+        with m.If(sending & d.tx_ready):
+            m.d.usb += [idx.eq(idx + 1), accepted.eq(accepted + 1)]
+            with m.If(idx + 1 == self.count):
+                m.d.usb += [sending.eq(0), done.eq(1)]
+        with m.If(~sending & d.tx_ready & (accepted != n + 1)):
+            m.d.usb += accepted.eq(accepted + 1)
+        # ---- line monitor (usb_io domain)
+        lvl = Signal(2)
+        oe = Signal()
+        m.d.comb += [lvl.eq(Cat(io.d_n.o, io.d_p.o)), oe.eq(io.d_p.oe)]
+        J, K, SE0 = 0b10, 0b01, 0b00
+        prev_oe = Signal()
+        cnt = Signal(2)
+        first = Signal()          # first 48 MHz cycle of a bit
+        m.d.usb_io += prev_oe.eq(oe)
+        rising = oe & ~prev_oe
+        m.d.comb += first.eq(rising | (oe & prev_oe & (cnt == 0)))
+        with m.If(rising):
+            m.d.usb_io += cnt.eq(1)
+        with m.Else():
+            m.d.usb_io += cnt.eq(cnt + 1)
+        held = Signal(2)          # level sampled in the bit's first cycle
+        prev_lvl = Signal(2, init=J)
+        ones = Signal(3)
+        bitpos = Signal(3)
+        cur_byte = Signal(8)
+        nbytes = Signal(range(n + 2))
+        st = Signal(3)            # 0 idle, 1 sync, 2 data, 3 after first SE0, 4 after second SE0, 5 after J, 6 finished
+        packets = Signal(2)
+        stuffed_seen = Signal()
+        stuff_at_end = Signal()
+        exp_byte = Signal(8)
+        with m.Switch(nbytes):
+            for i in range(n):
+                with m.Case(i):
+                    m.d.comb += exp_byte.eq(self.data[i])
+        bit = Signal()
+        m.d.comb += bit.eq(lvl == prev_lvl)
+        byte_done = Signal(8)
+        m.d.comb += byte_done.eq(cur_byte | (bit << bitpos))
+        with m.If(first):
+            m.d.usb_io += held.eq(lvl)
+            with m.If(rising):
+                m.d.usb_io += packets.eq(Mux(packets == 3, 3, packets + 1))
+            st_now = Signal(3)
+            m.d.comb += st_now.eq(Mux(rising, 1, st))
+            with m.If(lvl == 0b11):
+                m.d.comb += self.v["se1"].eq(1)
+            with m.Elif((st_now == 1) | (st_now == 2)):
+                with m.If(rising):
+                    m.d.usb_io += [st.eq(1)]
+                with m.If(lvl == SE0):
+                    # end of packet may only start on a byte boundary, in the data phase, with no stuff bit owed
+                    m.d.comb += self.v["eop"].eq(~((st_now == 2) & (bitpos == 0) & (ones != 6)))
+                    m.d.usb_io += st.eq(3)
+                with m.Else():
+                    m.d.usb_io += prev_lvl.eq(lvl)
+                    with m.If(~rising & (ones == 6)):
+                        # this bit must be a stuffed zero, and it is not data
+                        m.d.comb += self.v["stuffing"].eq(bit)
+                        m.d.usb_io += [ones.eq(0), stuffed_seen.eq(1)]
+                        with m.If(bitpos == 0):
+                            m.d.usb_io += stuff_at_end.eq(1)
+                    with m.Else():
+                        m.d.usb_io += ones.eq(Mux(bit, ones + 1, 0))
+                        m.d.usb_io += [cur_byte.eq(byte_done), bitpos.eq(bitpos + 1)]
+                        with m.If(bitpos == 7):
+                            m.d.usb_io += cur_byte.eq(0)
+                            with m.If(st_now == 1):
+                                m.d.comb += self.v["sync"].eq(byte_done != 0x80)
+                                m.d.usb_io += st.eq(2)
+                            with m.Else():
+                                m.d.comb += [self.v["byte_value"].eq((nbytes >= self.count) | (byte_done != exp_byte))]
+                                m.d.usb_io += nbytes.eq(Mux(nbytes == n + 1, n + 1, nbytes + 1))
+            with m.Elif(st_now == 3):
+                m.d.comb += self.v["eop"].eq(lvl != SE0)
+                m.d.usb_io += st.eq(4)
+            with m.Elif(st_now == 4):
+                m.d.comb += self.v["eop"].eq(lvl != J)
+                m.d.usb_io += st.eq(5)
+            with m.Elif(st_now == 5):
+                m.d.comb += self.v["eop"].eq(1)          # still driving after SE0 SE0 J
+        # the driver must be released one bit time after the J of the end of packet, and only then
+        with m.If(~oe & prev_oe):
+            m.d.comb += [self.v["eop"].eq(st != 5), self.v["byte_count"].eq(nbytes != self.count)]
+            m.d.usb_io += [st.eq(6), ones.eq(0), bitpos.eq(0), prev_lvl.eq(J), nbytes.eq(0)]
+        m.d.comb += [
+            self.v["oe_pair"].eq(io.d_p.oe != io.d_n.oe),
+            self.v["glitch"].eq(oe & prev_oe & ~first & (lvl != held)),
+            self.v["drives_only_for_packet"].eq(rising & (packets != 0)),        # the producer sends exactly one packet
+        ]
+        # ---- UTMI side (usb domain)
+        m.d.comb += [
+            self.v["ready_only_when_valid"].eq(d.tx_ready & ~d.tx_valid),
+            self.v["accepted_once"].eq(accepted > self.count),
+            self.c["packet_done"].eq(st == 6),
+            self.c["stuffed_bit"].eq((st == 6) & stuffed_seen),
+            self.c["three_bytes"].eq((st == 6) & (self.count == 3)),
+            self.c["stuff_at_byte_end"].eq((st == 6) & stuff_at_end & (self.count == 3)),
+            self.c["ff_byte"].eq((st == 6) & (self.data[1] == 0xFF) & (self.count == 3)),
+        ]
+        return m
+
+    def stimulus(self, rng, t, consts):
+        d = dict(consts)
+        d["start"] = int(t > 6)
+        return d
+
+    def const_stimulus(self, rng):
+        out = {f"byte{i}": rng.choice([0xFF, 0xFC, 0x00, 0x7E, rng.randrange(256)]) for i in range(self.n)}
+        out["byte0"] = rng.choice([0xC3, 0x4B, 0xD2, 0x5A, 0x1E, 0x0F])
+        out["count"] = rng.randrange(1, self.n + 1)
+        return out
+
+
 class CtrlHarness4(CtrlHarness):
     """same harness with the real 4:1 clock ratio (usb ticks on every 4th usb_io edge)"""
     clocks = {"usb_io": (1, 0), "usb": (4, 0)}
@@ -81,4 +248,21 @@ def queries(tier):
             Query("cosim_ctrl", f, 0, kind="cosim", cosim_cycles=200),
             Query("cosim_ctrl_4to1", lambda: CtrlHarness4(), 0, kind="cosim", cosim_cycles=400),
             Query("bmc_ctrl_4to1", lambda: CtrlHarness4(), 24, timeout=900, covers=[],
-                  desc="control clauses with the real 4:1 usb_io:usb clock ratio")]
+                  desc="control clauses with the real 4:1 usb_io:usb clock ratio")] + tx_queries(tier)
+
+
+def tx_queries(tier):
+    qs = []
+    phases = [0] if tier == "quick" else [0, 1, 2, 3]
+    for ph in phases:
+        f = (lambda ph=ph: TxLineHarness(4, ph))
+        hints = {"*": {"byte0": 0xC3}, "stuffed_bit": {"byte0": 0xC3, "byte1": 0xFF, "count": 2},
+                 "stuff_at_byte_end": {"byte0": 0xC3, "byte1": 0xFC, "count": 3}, "ff_byte": {"byte1": 0xFF, "count": 3},
+                 "three_bytes": {"count": 3}}
+        for hd in hints.values():
+            hd.setdefault("start", lambda t: 1)
+        qs.append(Query(f"bmc_tx_phase{ph}", f, 226, timeout=1500, hints=hints, split=False, layer={"start": lambda t: 1},
+                        desc=f"transmit encoding: 1..4 symbolic bytes, usb clock phase {ph} of 4 relative to the bit strobe, "
+                             "producer starts at once"))
+        qs.append(Query(f"cosim_tx_phase{ph}", f, 0, kind="cosim", cosim_cycles=260))
+    return qs
